@@ -375,7 +375,70 @@ Qed.
 Lemma res_plain_not_mismatch : forall r v e f, res_plain r -> r <> Some (RErr (IdMismatch v e f)).
 Proof. intros r v e f [ -> | [ -> | -> ]]; discriminate. Qed.
 
-(* the prelude under arbitrary fault injection *)
+(* the prelude under arbitrary fault injection, one call at a time *)
+Definition pre_txn (i : inst) : Prop := i_res i = None /\ i_buf i = None /\ i_lock i = Unlocked.
+
+Lemma create_step : forall F o c i, pre_txn i ->
+  res_plain (i_res (snd (exec F o [] ICreate c i))) /\
+  (fst (exec F o [] ICreate c i) = c \/ fst (exec F o [] ICreate c i) = sql_create_vt c) /\
+  (i_res (snd (exec F o [] ICreate c i)) = None ->
+     pre_txn (snd (exec F o [] ICreate c i)) /\ fst (exec F o [] ICreate c i) = sql_create_vt c).
+Proof.
+  intros F o c i [Hr [Hb Hl]]. unfold res_plain, pre_txn. simpl.
+  destruct (faulty F i); simpl; [split; [auto|split; [auto|discriminate]]|].
+  destruct c as [[t|] ap]; simpl; rewrite Hr, Hb, Hl; auto 10.
+Qed.
+
+Lemma alter_step : forall F o c i, pre_txn i ->
+  pre_txn (snd (exec F o [] IAlter c i)) /\
+  (fst (exec F o [] IAlter c i) = c \/ sql_alter_vt c = EngOk (fst (exec F o [] IAlter c i))).
+Proof.
+  intros F o c i [Hr [Hb Hl]]. unfold pre_txn. simpl.
+  destruct (faulty F i); simpl; [rewrite Hr, Hb, Hl; auto|].
+  destruct (sql_alter_vt c) eqn:E; simpl; rewrite Hr, Hb, Hl; auto.
+Qed.
+
+Lemma begin_step : forall F o c i, pre_txn i ->
+  res_plain (i_res (snd (exec F o [] IBegin c i))) /\ fst (exec F o [] IBegin c i) = c /\
+  (i_res (snd (exec F o [] IBegin c i)) = None -> pre_txn (snd (exec F o [] IBegin c i))).
+Proof.
+  intros F o c i [Hr [Hb Hl]]. unfold res_plain, pre_txn. simpl.
+  destruct (faulty F i); simpl; [auto 10|]. rewrite Hr, Hb, Hl. auto 10.
+Qed.
+
+Lemma readmax_step : forall F o c i, pre_txn i ->
+  res_plain (i_res (snd (exec F o [] IReadMax c i))) /\ fst (exec F o [] IReadMax c i) = c /\
+  (i_res (snd (exec F o [] IReadMax c i)) = None ->
+     exists t, d_vt c = Some t /\ i_buf (snd (exec F o [] IReadMax c i)) = Some c /\
+               i_ver (snd (exec F o [] IReadMax c i)) = decode_version (max_version (vt_rows t))).
+Proof.
+  intros F o c i [Hr [Hb Hl]]. unfold res_plain. simpl.
+  destruct (faulty F i); simpl; [split; [auto|split; [auto|discriminate]]|].
+  unfold acquire_shared. rewrite Hb. simpl. unfold sql_select_max, view; simpl.
+  destruct (d_vt c) as [t|]; simpl; [|split; [auto|split; [auto|discriminate]]].
+  rewrite Hr. split; [auto|]. split; [auto|]. intros _. exists t. auto.
+Qed.
+
+Lemma readids_step : forall F o c i, i_buf i = Some c -> i_res i = None ->
+  res_plain (i_res (snd (exec F o [] IReadIds c i))) /\ fst (exec F o [] IReadIds c i) = c /\
+  (i_res (snd (exec F o [] IReadIds c i)) = None ->
+     exists rows, d_vt c = Some (mkVt true rows) /\ i_buf (snd (exec F o [] IReadIds c i)) = Some c /\
+                  i_ver (snd (exec F o [] IReadIds c i)) = i_ver i /\
+                  i_ids (snd (exec F o [] IReadIds c i)) = decode_ids rows).
+Proof.
+  intros F o c i Hb Hr. unfold res_plain. simpl.
+  destruct (faulty F i); simpl; [split; [auto|split; [auto|discriminate]]|].
+  assert (Ha : acquire_shared [] c i = Some i) by (unfold acquire_shared; rewrite Hb; reflexivity).
+  assert (Hv : view c i = c) by (unfold view; rewrite Hb; reflexivity).
+  rewrite Ha, Hv. unfold sql_select_ids.
+  destruct (d_vt c) as [[[] rows]|]; simpl; try (split; [auto|split; [auto|discriminate]]).
+  rewrite Hr, Hb. split; [auto|]. split; [auto|]. intros _. exists rows. auto.
+Qed.
+
+Lemma create_rows : forall d, db_rows (sql_create_vt d) = db_rows d.
+Proof. intros [[t|] ap]; reflexivity. Qed.
+
+Local Opaque exec.
 Lemma prelude_gen : forall F o d,
   let ci := run_list F o [] prelude (d, inst0) in
   res_plain (i_res (snd ci)) /\
@@ -384,16 +447,51 @@ Lemma prelude_gen : forall F o d,
       i_ver (snd ci) = decode_version (max_version rows) /\ i_ids (snd ci) = decode_ids rows /\
       i_buf (snd ci) = Some (fst ci) /\ d_vt (fst ci) = Some (mkVt true rows)).
 Proof.
-  intros F o d. cbv zeta. unfold res_plain.
-  destruct d as [[[[] rows]|] ap]; unfold bootstrap, db_rows; simpl;
-  repeat match goal with
-         | |- context [faulty F ?i] => destruct (faulty F i); simpl
-         end;
-  (split; [auto|split; [auto|]]); intros Hn; try discriminate;
-  first [ exists rows; repeat split; reflexivity
-        | exists (map (fun r => (fst r, "")) rows); rewrite map_map; repeat split; reflexivity
-        | exists []; repeat split; reflexivity ].
+  intros F o d. cbv zeta. unfold prelude.
+  assert (H0 : pre_txn inst0) by (repeat split).
+  rewrite run_list_cons_running by reflexivity.
+  destruct (create_step F o d inst0 H0) as [P1 [D1 N1]].
+  destruct (exec F o [] ICreate d inst0) as [c1 i1]. cbn [fst snd] in *.
+  destruct (i_res i1) eqn:E1.
+  { rewrite (run_list_finished _ _ _ _ (c1, i1) _ E1). simpl. rewrite E1.
+    split; [exact P1|]. split; [destruct D1; auto|discriminate]. }
+  destruct (N1 eq_refl) as [T1 ->]. clear N1 D1 P1.
+  rewrite run_list_cons_running by exact E1.
+  destruct (alter_step F o (sql_create_vt d) i1 T1) as [T2 D2].
+  destruct (exec F o [] IAlter (sql_create_vt d) i1) as [c2 i2]. cbn [fst snd] in *.
+  assert (Hc2 : c2 = sql_create_vt d \/ c2 = bootstrap d).
+  { destruct D2 as [->|D2]; [left; reflexivity|right]. unfold bootstrap. rewrite D2. reflexivity. }
+  assert (Hrows2 : map fst (db_rows c2) = map fst (db_rows d)).
+  { destruct Hc2 as [->| ->]; [rewrite create_rows; reflexivity|].
+    destruct (bootstrap_shape d) as [rows [Hb Hm]]. rewrite Hb. exact Hm. }
+  assert (Hdb2 : c2 = d \/ c2 = sql_create_vt d \/ c2 = bootstrap d) by (destruct Hc2; auto).
+  clear D2 Hc2.
+  destruct T2 as [E2 [B2 L2]].
+  rewrite run_list_cons_running by exact E2.
+  destruct (begin_step F o c2 i2 (conj E2 (conj B2 L2))) as [P3 [D3 N3]].
+  destruct (exec F o [] IBegin c2 i2) as [c3 i3]. cbn [fst snd] in *. subst c3.
+  destruct (i_res i3) eqn:E3.
+  { rewrite (run_list_finished _ _ _ _ (c2, i3) _ E3). simpl. rewrite E3.
+    split; [exact P3|]. split; [exact Hdb2|discriminate]. }
+  pose proof (N3 eq_refl) as T3. clear N3 P3.
+  rewrite run_list_cons_running by exact E3.
+  destruct (readmax_step F o c2 i3 T3) as [P4 [D4 N4]].
+  destruct (exec F o [] IReadMax c2 i3) as [c4 i4]. cbn [fst snd] in *. subst c4.
+  destruct (i_res i4) eqn:E4.
+  { rewrite (run_list_finished _ _ _ _ (c2, i4) _ E4). simpl. rewrite E4.
+    split; [exact P4|]. split; [exact Hdb2|discriminate]. }
+  destruct (N4 eq_refl) as [t [Ht [B4 V4]]]. clear N4 P4.
+  rewrite run_list_cons_running by exact E4.
+  destruct (readids_step F o c2 i4 B4 E4) as [P5 [D5 N5]].
+  destruct (exec F o [] IReadIds c2 i4) as [c5 i5]. cbn [fst snd] in *. subst c5.
+  simpl run_list.
+  split; [exact P5|]. split; [exact Hdb2|]. intros E5.
+  destruct (N5 E5) as [rows [Hvt [B5 [V5 I5]]]].
+  exists rows. rewrite Hvt in Ht. injection Ht as <-. cbn [fst snd].
+  split; [|split; [rewrite V5, V4; reflexivity|split; [exact I5|split; [exact B5|exact Hvt]]]].
+  rewrite <- Hrows2. unfold db_rows. rewrite Hvt. reflexivity.
 Qed.
+Local Transparent exec.
 
 Lemma max_decode_ge : forall rows r,
   (forall x, In x rows -> (0 <= fst x < 2147483648)%Z) -> In r rows ->
@@ -540,6 +638,15 @@ Proof.
   apply Hstep.
 Qed.
 
+Lemma run_calls_enough : forall F o l fuel ci,
+  List.length l <= fuel -> run_calls F o fuel l ci = run_list F o [] l ci.
+Proof.
+  intros F o l. induction l as [|x l IH]; intros fuel ci H; simpl; [reflexivity|].
+  destruct (i_res (snd ci)); [reflexivity|]. simpl in H.
+  destruct fuel as [|f]; [lia|].
+  destruct x; try (apply IH; lia).
+Qed.
+
 Theorem crash_before_commit : forall j o ms d,
   crash j o ms d = d \/ crash j o ms d = sql_create_vt d \/ crash j o ms d = bootstrap d
   \/ crash j o ms d = fst (run [] o ms d).
@@ -552,7 +659,7 @@ Proof.
   - destruct d as [[[[] rows]|] ap]; simpl; auto.
   - destruct d as [[[[] rows]|] ap]; simpl; auto.
   - assert (Hp : run_calls [] o (S (S (S (S (S j))))) prelude (d, inst0) = run_list [] o [] prelude (d, inst0))
-      by (destruct d as [[[[] rows]|] ap]; reflexivity).
+      by (apply run_calls_enough; simpl; lia).
     rewrite Hp, prelude_nofault. simpl snd. simpl i_n. simpl Nat.ltb. cbv iota. simpl i_res. cbv iota.
     simpl i_ver. simpl i_ids. simpl fst.
     unfold run, run_from. rewrite prelude_nofault. simpl.
